@@ -101,6 +101,31 @@ def judge_file(data, st, case, quick_blocks=None):
                              dict(case, header=j, pad=k))
                 break
 
+    # 1a'. two long headers in one file (the later one shorter or longer):
+    #      state kept from one header must not leak into the next
+    for j in range(len(exp)):
+        for j2 in range(j + 1, min(j + 4, len(exp))):
+            for k1, k2 in ((150, 100), (100, 150), (200, 97), (300, 1),
+                           (97, 96)):
+                blob = pad_header(data, exp[j2]['span'], k2)
+                blob = pad_header(blob, exp[j]['span'], k1)
+                recs, e = sut.read_records(blob)
+                runs += 1
+                want = norm(base)
+
+                for jj, kk in ((j, k1), (j2, k2)):
+                    want[jj] = dict(want[jj])
+                    want[jj]['options'] = dict(want[jj]['options'],
+                                               pad='x' * kk)
+
+                if e is not None or not same(recs, want):
+                    st.violation('records-depend-on-earlier-header',
+                                 'headers %d and %d padded by %d and %d: %r'
+                                 % (j, j2, k1, k2, e),
+                                 dict(case, header=j, pad=k1, header2=j2,
+                                      pad2=k2))
+                    break
+
     # 1b. empty lines before each header, through two full blocks
     for j, rec in enumerate(exp):
         if j == 0:
@@ -120,6 +145,40 @@ def judge_file(data, st, case, quick_blocks=None):
                              '%d empty lines before header %d (%s): %r'
                              % (k, j, rec['section'], e),
                              dict(case, header=j, blank=k))
+                break
+
+    # 1c. other kinds of stream a caller may hand over: buffered readers
+    #     with small buffers (they offer peek()), a real file, and a stream
+    #     already positioned past some leading bytes
+    hows = [('buffered', n) for n in (16, 61, 96, 97, 256, 1024, 4096)] + \
+        [('offset', k) for k in (1, 2, 7, 95, 96, 97, 4096)] + [('file',)]
+
+    for how in hows:
+        variants = [(data, base)]
+
+        if exp:
+            # and with the first header padded, so later headers move
+            for k in (1, 50, 96):
+                padded = pad_header(data, exp[0]['span'], k)
+                want = norm(base)
+                want[0] = dict(want[0])
+                want[0]['options'] = dict(want[0]['options'], pad='x' * k)
+                variants.append((padded, want))
+
+        for blob, want in variants:
+            stream = sut.open_stream(blob, how)
+
+            try:
+                recs, e = sut.read_records_from(stream)
+            finally:
+                stream.close()
+
+            runs += 1
+
+            if e is not None or not same(recs, want):
+                st.violation('records-depend-on-stream-kind',
+                             'stream %r: %r' % (how, e),
+                             dict(case, stream=list(how)))
                 break
 
     # 2. every block size
@@ -179,7 +238,8 @@ def run_case(case, st):
     else:
         data = case['data']
 
-    if 'header' in case or 'block' in case or 'blank' in case:
+    if 'header' in case or 'block' in case or 'blank' in case or \
+            'stream' in case:
         # replay of one coordinate
         return replay_point(data, case, st)
 
@@ -203,6 +263,21 @@ def replay_point(data, case, st):
         d = data
         want = norm(base)
 
+        if 'stream' in case:
+            for blob, want_ in [(data, want)]:
+                stream = sut.open_stream(blob, tuple(case['stream']))
+
+                try:
+                    recs, e = sut.read_records_from(stream)
+                finally:
+                    stream.close()
+
+                if e is not None or not same(recs, want_):
+                    st.violation('records-depend-on-stream-kind', repr(e),
+                                 case)
+
+            return
+
         if 'blank' in case:
             j = case['header']
             hstart = exp[j]['span'][0]
@@ -211,7 +286,16 @@ def replay_point(data, case, st):
             d = data[:hstart] + nl * case['blank'] + data[hstart:]
         elif 'header' in case:
             j, k = case['header'], max(1, case['pad'])
-            d = pad_header(data, exp[j]['span'], k)
+            d = data
+
+            if 'header2' in case:
+                j2, k2 = case['header2'], case['pad2']
+                d = pad_header(d, exp[j2]['span'], k2)
+                want[j2] = dict(want[j2])
+                want[j2]['options'] = dict(want[j2]['options'],
+                                           pad='x' * k2)
+
+            d = pad_header(d, exp[j]['span'], k)
             want[j] = dict(want[j])
             want[j]['options'] = dict(want[j]['options'], pad='x' * k)
 
@@ -256,7 +340,9 @@ def checks():
                  '1..200 bytes via an unknown option (walking its newline '
                  'and the content start through every position of the '
                  'read-ahead block), 1..200 empty lines inserted before '
-                 'every header, every block size 1..192, 255, 256, '
+                 'every header, buffered readers with 16..4096-byte buffers, '
+                 'a real file and streams positioned past 1..4096 leading '
+                 'bytes, every block size 1..192, 255, 256, '
                  '4096, 10^6, and a diagonal of padding x block size; '
                  'records must equal the unpadded/default-block records '
                  '(+ the pad option) and the reference reading; every file '
